@@ -236,7 +236,7 @@ var timeCounter int
 func (e *Engine) timeNow(c *Config) Value {
 	timeCounter++
 	d := Var(fmt.Sprintf("dt_%d", timeCounter), 64)
-	e.constraints = append(e.constraints, Ult(d, BV(1<<20, 64)))
+	e.constraints = append(e.constraints, Ult(d, BV(4, 64)))
 	cl := e.clockCell()
 	nv := Add(termOf(cl), d)
 	e.foot.write(cl.Obj, c.g)
@@ -400,6 +400,8 @@ func init() {
 			storeCell(reg.State, BV(2, 8), And(cc.c.g, ok))
 			return ok, true
 		}}
+	extraIntrinsics["verifLastRandN"] = func(cc *CallCtx) bool { cc.finish(restrictTerm(cc.e.lastRandN, cc.c.g)); return true }
+	extraIntrinsics["verifLastRand"] = func(cc *CallCtx) bool { cc.finish(restrictTerm(cc.e.lastRandR, cc.c.g)); return true }
 	extraIntrinsics["verifAwaitAfterFunc"] = func(cc *CallCtx) bool {
 		id := cc.args[0].(*Term)
 		if !id.IsConst() {
@@ -487,6 +489,8 @@ func init() {
 		r := Var(fmt.Sprintf("rand_%d", timeCounter), 64)
 		cc.e.constraints = append(cc.e.constraints, Implies(cc.c.g, And(Sle(BV(0, 64), r), Slt(r, n))))
 		cc.e.randLog = append(cc.e.randLog, RandRec{G: cc.c.g, N: n, R: r})
+		cc.e.lastRandN = iteValue(cc.c.g, n, cc.e.lastRandN).(*Term)
+		cc.e.lastRandR = iteValue(cc.c.g, r, cc.e.lastRandR).(*Term)
 		return r
 	}}
 	models["fmt.Errorf"] = &Model{Plain: func(cc *CallCtx) Value { return cc.e.freshErr(cc.c, "fmt.Errorf") }}
@@ -521,4 +525,18 @@ type RandRec struct {
 	G *Term
 	N *Term
 	R *Term
+}
+
+// restrictTerm resolves top-level ite chains whose conditions are decided (syntactically) by guard g.
+func restrictTerm(t *Term, g *Term) *Term {
+	for t.op == OpIte {
+		if And(g, Not(t.args[0])).IsFalse() {
+			t = t.args[1]
+		} else if And(g, t.args[0]).IsFalse() {
+			t = t.args[2]
+		} else {
+			break
+		}
+	}
+	return t
 }
